@@ -543,3 +543,96 @@ Proof.
   eapply sat_bind; [apply sat_lift, raw_stream_rsat; assumption|].
   intros s (Hs & Hl). apply Hrd; assumption.
 Qed.
+
+(* ------------------------------------------------------------------ round 2: contexts, misc info, text streams, memory reads *)
+Lemma context_print_fixed_rsat : forall k, rsat (fun _ => True) (context_print Fixed k).
+Proof. intros k; destruct k; cbn [context_print]; apply rsat_ok; exact I. Qed.
+Lemma threads_print_fixed_rsat : forall ks, rsat (fun _ => True) (threads_print Fixed ks).
+Proof.
+  induction ks as [|[k|] t IH]; cbn [threads_print].
+  - apply rsat_ok; exact I.
+  - eapply rsat_bind; [apply context_print_fixed_rsat|]. intros; exact IH.
+  - exact IH.
+Qed.
+
+(* the xstate feature iterator: never shifts by 64 or more, never indexes past the 64 entries,
+   stops within 64 steps, yields increasing in-range indices *)
+Lemma xstate_loop_rsat : forall p enabled fuel idx, 0 <= idx -> XSTATE_FEATURES - idx <= Z.of_nat fuel ->
+  rsat (fun l => Forall (fun i => idx <= i < XSTATE_FEATURES) l /\ blen l <= Z.max 0 (XSTATE_FEATURES - idx))
+       (xstate_loop p fuel idx enabled).
+Proof.
+  intros p enabled. unfold XSTATE_FEATURES. induction fuel as [|fuel IH]; intros idx H0 Hf; cbn [xstate_loop]; unfold XSTATE_FEATURES.
+  - destruct (Z.leb_spec 64 idx); [|lia]. apply rsat_ok. split; [constructor | unfold blen; cbn; lia].
+  - destruct (Z.leb_spec 64 idx). { apply rsat_ok. split; [constructor | unfold blen; cbn; lia]. }
+    destruct (Z.ltb_spec idx 64); [|lia]. cbn [rbind].
+    assert (IH' := IH (idx + 1) ltac:(lia) ltac:(lia)).
+    destruct (Z.testbit enabled idx).
+    + eapply rsat_bind; [exact IH'|]. intros l (Hl & Hn). apply rsat_ok. split.
+      * constructor; [lia|]. eapply Forall_impl; [|exact Hl]. cbn; intros; lia.
+      * unfold blen in *. cbn [length]. lia.
+    + eapply rsat_weaken; [|exact IH']. cbn beta. intros l (Hl & Hn). split.
+      * eapply Forall_impl; [|exact Hl]. cbn; intros; lia.
+      * lia.
+Qed.
+Lemma xstate_iter_rsat : forall p enabled,
+  rsat (fun l => Forall (fun i => 0 <= i < XSTATE_FEATURES) l /\ blen l <= XSTATE_FEATURES) (xstate_iter p enabled).
+Proof.
+  intros. unfold xstate_iter. eapply rsat_weaken; [|apply xstate_loop_rsat; unfold XSTATE_FEATURES; lia].
+  cbn beta. unfold XSTATE_FEATURES. intros l (H1 & H2). split; [assumption | lia].
+Qed.
+Lemma read_misc_info_rsat : forall e b, rsat (fun _ => True) (read_misc_info e b).
+Proof.
+  intros. unfold read_misc_info.
+  repeat (match goal with |- context [if ?c then _ else _] => destruct c end; [apply rsat_ok; exact I|]).
+  apply rsat_err.
+Qed.
+
+(* get_memory_at_address: a value is only ever produced from inside the region *)
+Lemma mem_read_in_bounds : forall n e base region addr v, mem_read n e base region addr = Some v ->
+  base <= addr /\ (addr - base) + n <= blen region.
+Proof.
+  intros n e base region addr v H. unfold mem_read in H.
+  destruct (checked_sub addr base) as [start|] eqn:E; [|discriminate].
+  apply checked_sub_some in E. destruct E as [-> E]. apply get_u_some in H. lia.
+Qed.
+
+(* text streams *)
+Lemma split_on_count : forall sep l cur, blen (split_on sep l cur) <= blen l + 1.
+Proof.
+  intros sep. induction l as [|c t IH]; intros cur; cbn [split_on].
+  - unfold blen; cbn; lia.
+  - destruct (c =? sep).
+    + specialize (IH []). unfold blen in *. cbn [length]. lia.
+    + specialize (IH (c :: cur)). unfold blen in *. cbn [length]. lia.
+Qed.
+Lemma kv_of_lines_count : forall sep lines, blen (kv_of_lines sep lines) <= blen lines.
+Proof.
+  intros sep. induction lines as [|ln t IH]; cbn [kv_of_lines].
+  - unfold blen; cbn; lia.
+  - destruct (split_once sep ln []) as [[k v]|]; unfold blen in *; cbn [length]; lia.
+Qed.
+Lemma drop_ws_shorter : forall l, blen (drop_ws l) <= blen l.
+Proof.
+  induction l as [|c t IH]; cbn [drop_ws]; [lia|]. destruct (is_ws c); unfold blen in *; cbn [length] in *; lia.
+Qed.
+Lemma trim_ws_shorter : forall l, blen (trim_ws l) <= blen l.
+Proof.
+  intros l. unfold trim_ws.
+  pose proof (drop_ws_shorter l). pose proof (drop_ws_shorter (rev (drop_ws l))).
+  unfold blen in *. rewrite !rev_length in *. lia.
+Qed.
+Lemma strip_quotes_shorter : forall l, blen (strip_quotes l) <= blen l.
+Proof.
+  intros l. unfold strip_quotes. pose proof (trim_ws_shorter l) as H.
+  destruct (trim_ws l) as [|c r]; [exact H|].
+  destruct (c =? 34); [|exact H].
+  destruct (rev r) as [|c2 r'] eqn:Er; [exact H|].
+  destruct (c2 =? 34); [|exact H].
+  assert (length r = S (length r')) by (rewrite <- (rev_length r), Er; reflexivity).
+  unfold blen in *. cbn [length] in H. rewrite rev_length. lia.
+Qed.
+Lemma linux_kv_bounded : forall sep b,
+  blen (linux_kv sep b) <= blen (linux_lines b) /\ blen (linux_lines b) <= blen b + 1.
+Proof.
+  intros. unfold linux_kv, linux_lines. split; [apply kv_of_lines_count | apply split_on_count].
+Qed.
